@@ -91,14 +91,22 @@ class Obligation:
         self.time = 0.0
 
     def check(self, timeout_ms=OBLIGATION_TIMEOUT_MS):
-        s = z3.Solver()
-        s.set("timeout", timeout_ms)
-        for p in self.premises:
-            s.add(p)
-        if self.goal is not None:
-            s.add(z3.Not(self.goal))
         t = time.time()
-        r = s.check()
+        r = z3.unknown
+        # `unknown` is retried with another seed and a larger budget: verdicts must not flip when
+        # the machine is busy (slow queries are the unstable ones)
+        for attempt, (seed, mult) in enumerate(((0, 1), (7, 2), (13, 4))):
+            s = z3.Solver()
+            s.set("timeout", timeout_ms * mult)
+            if attempt:
+                s.set("random_seed", seed)
+            for p in self.premises:
+                s.add(p)
+            if self.goal is not None:
+                s.add(z3.Not(self.goal))
+            r = s.check()
+            if r != z3.unknown:
+                break
         self.time = time.time() - t
         if r == z3.unsat:
             self.status = "discharged"
